@@ -159,10 +159,18 @@ func TestSim(t *testing.T) {
 				sum.Infra = append(sum.Infra, fmt.Sprintf("run %d: %s", run, res.Detail))
 			}
 		case "violation":
-			res.Known = matchKnown(known, res)
+			selectPrimary(known, res)
 			cl := classOf(res)
 			if vs, ok := classes[cl]; ok {
 				vs.Count++
+				continue
+			}
+			if res.Known != "" {
+				// a listed finding: counted, not minimised or recorded again
+				vs := &ViolationSummary{Class: cl, Property: res.Property, Oracle: res.Oracle, Attrs: res.Attrs,
+					Detail: res.Detail, Known: res.Known, Count: 1, FirstRun: run}
+				classes[cl] = vs
+				sum.Violations = append(sum.Violations, vs)
 				continue
 			}
 			if len(classes) >= 12 {
@@ -181,7 +189,7 @@ func TestSim(t *testing.T) {
 				if r2.Verdict != "violation" {
 					return nil, nil, false
 				}
-				r2.Known = matchKnown(known, r2)
+				selectPrimary(known, r2)
 				return r2.Tape, r2.Blocks, classOf(r2) == cl
 			}
 			budget := 2000
@@ -190,11 +198,11 @@ func TestSim(t *testing.T) {
 			}
 			min := Shrink(orig, res.Blocks, still, budget)
 			final := execute(t, check, tier, NewReplayTape(min), true)
-			final.Known = matchKnown(known, final)
+			selectPrimary(known, final)
 			if final.Verdict != "violation" || classOf(final) != cl {
 				// shrinking went wrong: fall back to the original tape
 				final = execute(t, check, tier, NewReplayTape(orig), true)
-				final.Known = matchKnown(known, final)
+				selectPrimary(known, final)
 				if final.Verdict != "violation" {
 					sum.Infra = append(sum.Infra, fmt.Sprintf("run %d: violation did not reproduce from its own tape (nondeterminism)", run))
 					continue
@@ -246,7 +254,7 @@ func doReplay(t *testing.T, path string, known []KnownFinding) {
 	}
 	switch res.Verdict {
 	case "violation":
-		res.Known = matchKnown(known, res)
+		selectPrimary(known, res)
 		same := res.Oracle == rf.Oracle && res.TraceHash == rf.TraceHash
 		fmt.Printf("REPLAY verdict=violation oracle=%s trace_hash=%s identical=%v\n", res.Oracle, res.TraceHash, same)
 		fmt.Printf("VIOLATION property=%s replay=%s\n", res.Property, path)
